@@ -173,6 +173,16 @@ def check_C06(chk, tier, seed):
             cut = 1 + r.below(max(1, len(fr) - 1))
             cases.append(f"SE {c[2:]} {ws([f'b:{cut:x}', 'x'])}")
             expect.append(("write-fault", "SE err " + xb(fr[:cut])))
+    # messages carrying AVPs their dictionary does not define (the builder does not consult it; a relay forwards such AVPs): what is
+    # written is the message's encoding, whether or not anybody could decode it again
+    for j, (code, vend) in enumerate([(0xfffffe, None), (0xfffffe, 10415), (59999, None), (264, 77)]):
+        for script in ([], [1] * 60, [7, "p"] * 12):
+            cases.append(f"SE g NEW 110 4 80 {hx(j + 1)} 2 2 ADDAVP {hx(code)} {opt(vend)} 40 L oct x0102030405 ADDAVP 3f3 - 0 L oct x0a0b {ws(script)}")
+            h = 12 if vend is not None else 8
+            avp = gen.be(code, 4) + bytes([0x40 | (0x80 if vend is not None else 0)]) + gen.be(h + 5, 3) + (gen.be(vend, 4) if vend is not None else b"") + b"\1\2\3\4\5\0\0\0"
+            avp2 = gen.be(1011, 4) + b"\0" + gen.be(10, 3) + b"\x0a\x0b\0\0"
+            fr2 = bytes([1]) + gen.be(20 + len(avp) + len(avp2), 3) + bytes([0x80]) + gen.be(272, 3) + gen.be(4, 4) + gen.be(j + 1, 4) + gen.be(2, 4) + avp + avp2
+            expect.append(("write-undefined-avp", "SE ok " + xb(fr2)))
     # large messages and frames: sizes that are not a multiple of any buffer size a codec might use (4096, 8192, 16384,
     # 65536), written through writers of various appetites, and read back pipelined with small frames with the seam between
     # two frames falling inside one delivery
@@ -307,6 +317,16 @@ def check_C07(chk, tier, seed):
             chk.corr_break("observation differs from the model", dict(case=c, announced=L, impl=short(im, 1000), model=short(mo, 1000)))
         if i % max(1, len(cases) // 6) == 0:
             chk.sample(dict(case=c, announced=L, impl=short(im, 120), P=ok))
+    if tier == "thorough":
+        # the same cases with library and harness built in the release profile: no panic there either, and the same outcomes
+        rel = core.build_harness("release")
+        rimpl = core.run_sharded([rel, "codec"], eng.prelude, cases, timeout=900)
+        chk.count("release-profile-cases", len(cases))
+        for c, (L, kind, nc), a, b in zip(cases, meta, impl, rimpl):
+            if a != b:
+                chk.violation(f"the stream reader behaves differently in the release profile for an announced length of {L}: " + short(b, 200),
+                              dict(case=c if len(c) < 4000 else core.sha(c), announced=L, release=short(b, 600), dev=short(a, 600)))
+                break
     chk.exhaustive = True
     chk.rule = ("every announced length in 0..64, within 16 of 2^20 and of 2^24-1, every power of two, random lengths; each followed by no data, fewer octets than "
                 "announced, exactly, more (lengths <= 8 KiB and 2^20-1, 2^20) or 4 KiB of data; whole-buffer and chunked delivery; octets taken from the reader counted")
@@ -457,6 +477,21 @@ def server_scenarios(rng, eng, msgs, n, tier):
             out.append((case, ("bigreq", 3, xb(b"".join(a[1] for a in answers))), "big-request", 3))
         else:
             out.append((case, ("bigreq", 1, xb(answers[0][1])), "big-request", 3))
+    # requests above any small receive buffer (4 KiB, 8 KiB, 64 KiB) in SHRINKING order, each shorter than an earlier one on the same
+    # connection, delivered in one piece and in pieces: each is handled, and so is the small request behind them
+    for k, sizes in enumerate([(6000, 4500), (9000, 8200, 4100), (70000, 66000, 5000, 4097), (5000, 4999, 4998, 4997)]):
+        r = rng.fork(f"shrink{k}")
+        tail = msgs[r.below(len(msgs))]
+        answers = [msgs[r.below(len(msgs))] for _ in range(len(sizes) + 1)]
+        frames = []
+        for j, total in enumerate(sizes):
+            n = total - 20 - 8
+            avp = gen.be(1011, 4) + b"\0" + gen.be(8 + n, 3) + bytes((i * 7 + j) % 251 for i in range(n)) + b"\0" * ((4 - n % 4) % 4)
+            frames.append(bytes([1]) + gen.be(20 + len(avp), 3) + bytes([0x80]) + gen.be(0x110, 3) + gen.be(4, 4) + gen.be(j + 1, 4) + gen.be(2, 4) + avp)
+        stream = b"".join(frames) + tail[1]
+        for chunks in ([stream], [stream[i:i + 3000] for i in range(0, len(stream), 3000)], [f for f in frames] + [tail[1]]):
+            case = f"SV g {rs(chunks)} {ws([])} {len(answers)} " + " ".join("A " + a[0][2:] for a in answers)
+            out.append((case, ("bigreq", len(answers), xb(b"".join(a[1] for a in answers))), "shrinking-large-requests", len(answers)))
     # an answer larger than the 1 MiB the server is prepared to READ: the limit is about incoming frames, whatever the
     # handler returns (up to the 2^24 the wire can carry) must be written in full
     for k, n in enumerate([0x100000 - 28 - 4, 0x100000 - 28, 0x100000 + 4] if tier == "quick" else [0x100000 - 28 - 4, 0x100000 - 28, 0x100000 + 4, 0x400000]):
@@ -491,7 +526,7 @@ def check_C08(chk, tier, seed):
         chk.count(f"requests:{nreq}")
         if isinstance(exp, tuple) and exp[0] == "bigreq":
             t = strip_consumed(im)
-            want_res = "closed" if exp[1] == 3 else "failed"
+            want_res = "closed" if (exp[1] == 3 or kind == "shrinking-large-requests") else "failed"
             ok = t.startswith(f"SV {want_res} CALLS {exp[1]} [") and t.endswith(" WRITTEN " + exp[2])
             exp = f"SV {want_res} CALLS {exp[1]} [...] WRITTEN {exp[2]}"
         elif isinstance(exp, tuple):
@@ -586,8 +621,13 @@ def check_C09(chk, tier, seed):
             ncalls = min(nreq, hit + 1) if q < len(alla) else nreq
             res = "failed" if q < len(alla) else "closed"
             calls = "".join(f" [{x[2]}]" for x in reqs[:ncalls])
-            for style in ("dribble", "whole"):
-                if style == "dribble":
+            for style in ("dribble", "whole", "interrupted"):
+                if style == "interrupted":
+                    if q % 3:
+                        continue
+                    # the write side fails with ErrorKind::Interrupted after q octets: a failure like any other - nothing is written again
+                    wscript = [f"b:{q:x}", "i", "x"]
+                elif style == "dribble":
                     wscript = [1] * q + ["x"]
                 else:
                     # a writer that lets exactly q octets through, in whatever portions they are offered, then fails
